@@ -1,6 +1,6 @@
 #!/bin/bash
 # run every claimed quick check once (VERIF_SEED from the environment); report non-zero exits
-cd /verif
+cd "$(dirname "$0")/.."
 fail=0
 for p in $(/venv/bin/python -c "import json; print(' '.join(c['property_id'] for c in json.load(open('MANIFEST.json'))['checks']))"); do
   out=$(timeout 1200 ./check $p 2>&1); rc=$?
